@@ -65,8 +65,9 @@ def build(is_async, with_cb=True):
     cl.drain()
     frames = [f for f in w.drain(t) if f[0] == 'pkt' and f[1] == 2]
     cbid = None
-    for k, v in w.sio.manager.callbacks.get(sid, {}).items():
-        if k != 0 and v is cb:
+    from ..introspect import callbacks_of
+    for k, v in callbacks_of(w.sio.manager).get(sid, {}).items():
+        if v is cb:
             cbid = k
     w.take_log()
     return cl, w, t, sid, sids, fired, log, cbid
